@@ -369,6 +369,24 @@ pub fn run(tier: Tier) -> i32 {
                 }
             }
         }
+        // metadata keys: every keyword-like / scheduler-like word as a key (alone, and with the same
+        // value under a neighbouring key), with a boolean, a string and a list value: the key is
+        // kept as written, whatever it spells; words the lexer reserves are refused by both sides
+        {
+            let mut words: Vec<&str> = super::c15::PLAUSIBLE_WORDS.to_vec();
+            words.extend(["enabled", "disabled", "active", "skip", "ignore", "hidden", "deprecated", "priority", "weight", "stop", "final", "tags", "id", "version", "condition", "expr", "expression", "comment", "comments", "title", "label", "summary", "doc", "docs", "Name", "NAME", "Description", "name_", "description_", "names", "desc", "nam", "n", "d"]);
+            words.sort();
+            words.dedup();
+            for w in words {
+                for v in ["false", "\"text\"", "[i1, none]"] {
+                    for text in [format!("// n\n@{w}: {v};\nx"), format!("// n\n// d\n@zz: i1;\n@{w}: {v};\n@{w}_: {v};\nx + i1")] {
+                        let comments: Vec<&str> = if text.contains("// d") { vec!["n", "d"] } else { vec!["n"] };
+                        check_raw_rule(&g, &text, &comments, "metadata-key", &mut acc0);
+                        acc0.count("metadata_key_texts", 1);
+                    }
+                }
+            }
+        }
         // raw line breaks inside string literals of a rule text (metadata values and expression), in
         // LF and CRLF files: the literal keeps the characters written
         {
